@@ -1,11 +1,41 @@
 /-
 C03 — property theorems (only). Model: `HydroVerif/Model/C03.lean`; lemmas: `HydroVerif/Lemmas/C03*.lean`.
-All theorems are over an arbitrary linearly ordered field `α` and every number of forecasts `n ≥ 1`,
-ensemble size `m ≥ 1`, observation and member values (ties included); `sort` is any function returning a
-sorted permutation (`SortOK`), which is all the kernel needs of `qsort`.
+Unless marked "any carrier", theorems are over an arbitrary linearly ordered field `α`, every number of
+forecasts `n ≥ 1`, ensemble size `m ≥ 1`, all observation and member values (ties included); `sort` is any
+function returning a sorted permutation (`SortOK`), which is all the kernel needs of `qsort`.
+`kernel` = `c_crps` (use_weights = 0, is_sorted = 0); `wrapper` = `metrics.crps` on `[n]` / `[n,m]` data with NaN
+as `none`; `wrapperNd` = the same with the shape handling of `__check_ensemble_data`. All three run in the
+driver and are compared with the real code on every case.
+
+Clause → theorems → what stays outside
+ 1  CRPS = mean over forecasts of E|X-y| - ½E|X-X'| (all n, m; ties, outliers, constant ensembles)
+      crps_eq_definition (kernel), entry_point_spec (entry point, NaN observations anywhere), wrapper_finite
+      outside: IEEE rounding (Float instance executed: ≤ 4 ulp to the code; exact-rational oracle on the code)
+ 1b one member: mean absolute error                      crps_single_member
+ 2  crps = reliability + potential                       crps_decomposition, entry_point_spec        (rounding: as 1)
+ 3  resolution = uncertainty - potential                 crps_decomposition, entry_point_spec,
+      resolution_eq_uncertainty_minus_potential_any_carrier (literal, so also in IEEE doubles)
+ 4  reliability, potential, uncertainty ≥ 0 (not NaN)    crps_decomposition, entry_point_spec
+      outside: sign in IEEE doubles (held by the oracle only; needed the fix: commit capping o[0], o[ncol])
+ 5  uncertainty = CRPS of the observed climatology       uncertainty_eq_climatology_crps, entry_point_spec
+ 6  order of members                                     member_permutation_invariant, entry_member_permutation_invariant,
+      member_order_irrelevant_any_carrier (bit-for-bit in IEEE doubles given qsort's output is the same)
+ 7  order of forecasts                                   forecast_permutation_invariant, entry_forecast_permutation_invariant
+      outside: float summation order (oracle with rounding budget)
+ 8  common shift                                         shift_invariant, entry_shift_invariant      (rounding of x+c: oracle)
+ 9  positive scale                                       scale_equivariant, entry_scale_equivariant  (rounding of c·x: oracle)
+10  forecasts with missing observation ignored           missing_observation_ignored (any carrier), entry_point_spec
+      (through wrapper_eq_kernel_kept: the entry point IS the kernel on the kept forecasts)
+ glue  [n] and [n,1] observation layouts agree (all n): obs_column_layout_same; [n]/[n',m] arrays:
+      wrapperNd_vector_matrix; rejected input: wrapper_rejects_length_mismatch, wrapper_rejects_no_valid_forecast,
+      obs_two_dimensional_rejected (all any carrier)
+      outside: dtype conversion (`astype(float64)`), ensembles with more than two dimensions, kept forecasts
+      with some-but-not-all NaN members (model declines: nanMember / ensNot2D; never generated)
+ assumption  mergeSort_sortOK: the driver's sort satisfies SortOK
 -/
 import HydroVerif.Model.C03
 import HydroVerif.Lemmas.C03
+import HydroVerif.Lemmas.C03Entry
 import Mathlib.Algebra.Order.Field.Rat
 
 set_option linter.unusedSectionVars false
@@ -151,10 +181,141 @@ theorem wrapper_finite (sort : List α → List α) {m : ℕ} {ys : List α} {ro
   simp only [hne, hfin, optAll_map_some, Bool.false_eq_true, if_false]
   rw [List.map_fst_zip (by rw [h.len]), List.map_snd_zip (by rw [h.len])]
 
+
+/-! ### the entry point `metrics.crps` on data with missing observations -/
+
+/-- **the whole property at the entry point**: for observations with NaN anywhere (at least one present) and
+finite members, `metrics.crps` succeeds; its CRPS is the mean, over the forecasts whose observation is present,
+of `E|X-y| - ½E|X-X'|`; the decomposition is exact with non-negative parts; the uncertainty is the CRPS the
+kernel returns for the climatology of the present observations -/
+theorem entry_point_spec {sort : List α → List α} (hsort : SortOK sort) {m : ℕ} {obs : List (Option α)}
+    {rows : List (List α)} (h : EntryShape m obs rows) :
+    ∃ res reli pot clim, wrapper sort m obs (rows.map fun r => r.map some) = .ok res ∧
+      res.crps = ((keptPairs obs rows).map fun p => energy p.1 p.2).sum / ((keptPairs obs rows).length : α) ∧
+      res.reli = some reli ∧ res.pot = some pot ∧ res.resol = some (res.unc - pot) ∧
+      res.crps = reli + pot ∧ 0 ≤ reli ∧ 0 ≤ pot ∧ 0 ≤ res.unc ∧
+      kernel sort (keptPairs obs rows).length ((keptPairs obs rows).map Prod.fst)
+        (List.replicate (keptPairs obs rows).length ((keptPairs obs rows).map Prod.fst)) = .ok clim ∧
+      res.unc = clim.crps := by
+  have hs := shape_kept h
+  obtain ⟨r1, hk1, hc⟩ := crps_eq_definition hsort hs
+  obtain ⟨r2, reli, pot, hk2, h1, h2, h3, h4, h5, h6, h7⟩ := crps_decomposition hsort hs
+  obtain ⟨r3, clim, hk3, hkc, hu⟩ := uncertainty_eq_climatology_crps hsort hs
+  have e12 : r2 = r1 := by rw [hk1] at hk2; exact (Except.ok.inj hk2).symm
+  have e13 : r3 = r1 := by rw [hk1] at hk3; exact (Except.ok.inj hk3).symm
+  rw [e12] at h1 h2 h3 h4 h7
+  rw [e13] at hu
+  refine ⟨r1, reli, pot, clim, ?_, ?_, h1, h2, h3, h4, h5, h6, h7, ?_, hu⟩
+  · rw [wrapper_eq_kernel_kept sort h]; exact hk1
+  · rw [hc, zip_fst_snd, List.length_map]
+  · simpa using hkc
+
+theorem entryShape_of_forall₂_perm {m : ℕ} {obs : List (Option α)} {rows rows' : List (List α)}
+    (h : EntryShape m obs rows) (hp : List.Forall₂ List.Perm rows' rows) : EntryShape m obs rows' := by
+  refine ⟨by rw [hp.length_eq, h.len], h.m_pos, rows_of_forall₂_perm hp h.row_len, ?_⟩
+  intro h0
+  have := (keptPairs_forall₂_perm obs hp).1
+  rw [h0] at this
+  exact h.some_obs (List.map_eq_nil_iff.mp this.symm)
+
+/-- entry point, **order of members** -/
+theorem entry_member_permutation_invariant {sort : List α → List α} (hsort : SortOK sort) {m : ℕ}
+    {obs : List (Option α)} {rows rows' : List (List α)} (h : EntryShape m obs rows)
+    (hp : List.Forall₂ List.Perm rows' rows) :
+    wrapper sort m obs (rows'.map fun r => r.map some) = wrapper sort m obs (rows.map fun r => r.map some) := by
+  rw [wrapper_eq_kernel_kept sort h, wrapper_eq_kernel_kept sort (entryShape_of_forall₂_perm h hp)]
+  obtain ⟨h1, h2⟩ := keptPairs_forall₂_perm obs hp
+  rw [h1]
+  exact member_permutation_invariant hsort (shape_kept h) h2
+
+/-- entry point, **order of forecasts** -/
+theorem entry_forecast_permutation_invariant {sort : List α → List α} (hsort : SortOK sort) {m : ℕ}
+    {obs obs' : List (Option α)} {rows rows' : List (List α)} (h : EntryShape m obs rows)
+    (h' : EntryShape m obs' rows') (hp : (obs'.zip rows').Perm (obs.zip rows)) :
+    wrapper sort m obs' (rows'.map fun r => r.map some) = wrapper sort m obs (rows.map fun r => r.map some) := by
+  rw [wrapper_eq_kernel_kept sort h, wrapper_eq_kernel_kept sort h']
+  apply forecast_permutation_invariant hsort (shape_kept h) (shape_kept h')
+  rw [zip_fst_snd, zip_fst_snd]
+  exact keptPairs_perm hp
+
+theorem entryShape_map (f : α → α) {m : ℕ} {obs : List (Option α)} {rows : List (List α)}
+    (h : EntryShape m obs rows) : EntryShape m (obs.map (Option.map f)) (rows.map (List.map f)) := by
+  refine ⟨by simp [h.len], h.m_pos, ?_, ?_⟩
+  · intro r hr
+    obtain ⟨r', hr', rfl⟩ := List.mem_map.mp hr
+    simpa using h.row_len r' hr'
+  · rw [keptPairs_map]
+    intro h0
+    exact h.some_obs (List.map_eq_nil_iff.mp h0)
+
+/-- entry point, **common shift** -/
+theorem entry_shift_invariant {sort : List α → List α} (hsort : SortOK sort) {m : ℕ}
+    {obs : List (Option α)} {rows : List (List α)} (h : EntryShape m obs rows) (c : α) :
+    wrapper sort m (obs.map (Option.map (· + c))) ((rows.map (List.map (· + c))).map fun r => r.map some)
+      = wrapper sort m obs (rows.map fun r => r.map some) := by
+  rw [wrapper_eq_kernel_kept sort h, wrapper_eq_kernel_kept sort (entryShape_map (· + c) h), keptPairs_map]
+  have e1 : ((keptPairs obs rows).map fun p => (p.1 + c, p.2.map (· + c))).map Prod.fst
+      = ((keptPairs obs rows).map Prod.fst).map (· + c) := by rw [List.map_map, List.map_map]; rfl
+  have e2 : ((keptPairs obs rows).map fun p => (p.1 + c, p.2.map (· + c))).map Prod.snd
+      = ((keptPairs obs rows).map Prod.snd).map fun r => r.map (· + c) := by rw [List.map_map, List.map_map]; rfl
+  rw [e1, e2]
+  exact shift_invariant hsort (shape_kept h) c
+
+/-- entry point, **positive scale factor** -/
+theorem entry_scale_equivariant {sort : List α → List α} (hsort : SortOK sort) {m : ℕ}
+    {obs : List (Option α)} {rows : List (List α)} (h : EntryShape m obs rows) (c : α) (hc : 0 < c) :
+    ∃ res, wrapper sort m obs (rows.map fun r => r.map some) = .ok res ∧
+      wrapper sort m (obs.map (Option.map (c * ·))) ((rows.map (List.map (c * ·))).map fun r => r.map some)
+        = .ok (scaleResult c res) := by
+  obtain ⟨res, h1, h2⟩ := scale_equivariant hsort (shape_kept h) c hc
+  refine ⟨res, by rw [wrapper_eq_kernel_kept sort h]; exact h1, ?_⟩
+  rw [wrapper_eq_kernel_kept sort (entryShape_map (c * ·) h), keptPairs_map]
+  have e1 : ((keptPairs obs rows).map fun p => (c * p.1, p.2.map (c * ·))).map Prod.fst
+      = ((keptPairs obs rows).map Prod.fst).map (c * ·) := by rw [List.map_map, List.map_map]; rfl
+  have e2 : ((keptPairs obs rows).map fun p => (c * p.1, p.2.map (c * ·))).map Prod.snd
+      = ((keptPairs obs rows).map Prod.snd).map fun r => r.map (c * ·) := by rw [List.map_map, List.map_map]; rfl
+  rw [e1, e2]
+  exact h2
+
+/-! ### facts that need no algebraic law: they hold over ANY carrier with the kernel's operations, so also for
+the IEEE-double instance the driver executes -/
+section AnyCarrier
+variable {β : Type} [Add β] [Sub β] [Mul β] [Div β] [LT β] [DecidableLT β] [LE β] [DecidableLE β]
+  [BEq β] [OfNat β 0] [OfNat β 1] [NatCast β]
+
+/-- `resolution = uncertainty - potential` literally (one subtraction of the two returned numbers) -/
+theorem resolution_eq_uncertainty_minus_potential_any_carrier (sort : List β → List β) (m : ℕ) (obs : List β)
+    (ens : List (List β)) (res : Result β) (h : kernel sort m obs ens = .ok res) :
+    res.resol = res.pot.map fun p => res.unc - p := by
+  unfold kernel at h
+  split at h
+  · cases h
+  · dsimp only at h
+    split at h
+    · cases h
+    · cases h; rfl
+
+/-- the result depends on the members only through the sorted rows: whenever `qsort` returns the same array
+for two orderings of the members (true of any sorted permutation in an order without NaN), every output is
+bit-for-bit the same -/
+theorem member_order_irrelevant_any_carrier (sort : List β → List β) (m : ℕ) (obs : List β)
+    (ens ens' : List (List β)) (h1 : ens'.map sort = ens.map sort)
+    (h2 : ens'.map List.length = ens.map List.length) :
+    kernel sort m obs ens' = kernel sort m obs ens := by
+  have hl : ens'.length = ens.length := by simpa using congrArg List.length h2
+  have ha : (ens'.any fun r => r.length != m) = (ens.any fun r => r.length != m) := by
+    have : ∀ e : List (List β), (e.any fun r => r.length != m) = ((e.map List.length).any fun k => k != m) := by
+      intro e; rw [List.any_map]; rfl
+    rw [this, this, h2]
+  unfold kernel
+  dsimp only
+  rw [hl, ha, loop_congr sort _ (obs.zip ens') (obs.zip ens) [] (init m)
+    (by rw [zip_map_sort, zip_map_sort, h1])]
+
 /-- **forecasts whose observation is missing are ignored**: inserting, anywhere, a forecast with a NaN
 observation (whatever its members) does not change the result -/
-theorem missing_observation_ignored (sort : List α → List α) (m : ℕ) (o1 o2 : List (Option α))
-    (e1 e2 : List (List (Option α))) (r : List (Option α)) (h1 : e1.length = o1.length) :
+theorem missing_observation_ignored (sort : List β → List β) (m : ℕ) (o1 o2 : List (Option β))
+    (e1 e2 : List (List (Option β))) (r : List (Option β)) (h1 : e1.length = o1.length) :
     wrapper sort m (o1 ++ none :: o2) (e1 ++ r :: e2) = wrapper sort m (o1 ++ o2) (e1 ++ e2) := by
   unfold wrapper
   have hlen : ((e1 ++ r :: e2).length ≠ (o1 ++ none :: o2).length) ↔ ((e1 ++ e2).length ≠ (o1 ++ o2).length) := by
@@ -164,6 +325,44 @@ theorem missing_observation_ignored (sort : List α → List α) (m : ℕ) (o1 o
       List.zip_cons_cons, List.filter_cons]
     simp [keep]
   simp only [hlen, hk]
+
+/-- rejected input: different numbers of observations and forecasts -/
+theorem wrapper_rejects_length_mismatch (sort : List β → List β) (m : ℕ) (obs : List (Option β))
+    (ens : List (List (Option β))) (h : ens.length ≠ obs.length) : wrapper sort m obs ens = .error .shape := by
+  unfold wrapper; rw [if_pos h]
+
+/-- rejected input: no forecast has both an observation and a member (all observations NaN, all rows NaN,
+zero members, zero forecasts) -/
+theorem wrapper_rejects_no_valid_forecast (sort : List β → List β) (m : ℕ) (obs : List (Option β))
+    (ens : List (List (Option β))) (h : ens.length = obs.length) (hk : ∀ p ∈ obs.zip ens, keep p = false) :
+    wrapper sort m obs ens = .error .noValidData := by
+  unfold wrapper
+  have : (obs.zip ens).filter keep = [] := List.filter_eq_nil_iff.mpr (fun p hp => by simp [hk p hp])
+  simp [h, this]
+
+/-- documented layouts: an `[n,1]` observation array is read as the `[n]` vector, for every `n` (also `n = 1`) -/
+theorem obs_column_layout_same (sort : List β → List β) (n : ℕ) (obs : List (Option β)) (eshape : List ℕ)
+    (ens : List (Option β)) : wrapperNd sort [n, 1] obs eshape ens = wrapperNd sort [n] obs eshape ens := by
+  unfold wrapperNd obsForecasts
+  by_cases h : n = 1
+  · subst h; simp
+  · have : (n != 1) = true := by simpa using h
+    simp [this]
+
+/-- `[n]` observations with an `[n', m]` ensemble array: the wrapper on the rows of the array -/
+theorem wrapperNd_vector_matrix (sort : List β → List β) (n n' m : ℕ) (obs ens : List (Option β)) :
+    wrapperNd sort [n] obs [n', m] ens = wrapper sort m obs (reshape m n' ens) := by
+  simp [wrapperNd, obsForecasts, ensDims]
+
+/-- rejected input: observations that are genuinely two-dimensional -/
+theorem obs_two_dimensional_rejected (sort : List β → List β) (a b : ℕ) (ha : a ≠ 1) (hb : b ≠ 1)
+    (obs : List (Option β)) (eshape : List ℕ) (ens : List (Option β)) :
+    wrapperNd sort [a, b] obs eshape ens = .error .obsNot1D := by
+  have h1 : (a != 1) = true := by simpa using ha
+  have h2 : (b != 1) = true := by simpa using hb
+  simp [wrapperNd, obsForecasts, h1, h2]
+
+end AnyCarrier
 
 /-! ### the hypotheses are satisfiable (concrete, non-trivial inputs over `ℚ`) -/
 
@@ -186,5 +385,35 @@ example : ∃ res, kernel (fun l : List ℚ => l.mergeSort fun a b => decide (a 
   refine ⟨res, h1, ?_⟩
   rw [h2]
   norm_num [energy, abs_of_nonneg, abs_of_neg]
+
+/-- entry-point data with a missing observation in the middle (its members, whatever they are, do not matter) -/
+example : EntryShape (α := ℚ) 2 [some 3, none, some 5] [[3, 1], [7, 7], [2, 2]] :=
+  ⟨rfl, by decide, by intro r hr; simp at hr; rcases hr with rfl | rfl | rfl <;> rfl, by simp [keptPairs]⟩
+
+/-- on that input the entry point returns CRPS = 7/4 (the NaN forecast is ignored) -/
+example : ∃ res, wrapper (fun l : List ℚ => l.mergeSort fun a b => decide (a ≤ b)) 2 [some 3, none, some 5]
+    ([[3, 1], [7, 7], [2, 2]].map fun r => r.map some) = .ok res ∧ res.crps = 7 / 4 := by
+  obtain ⟨res, _, _, _, h1, h2, _⟩ := entry_point_spec (α := ℚ) mergeSort_sortOK
+    (m := 2) (obs := [some 3, none, some 5]) (rows := [[3, 1], [7, 7], [2, 2]])
+    ⟨rfl, by decide, by intro r hr; simp at hr; rcases hr with rfl | rfl | rfl <;> rfl, by simp [keptPairs]⟩
+  refine ⟨res, h1, ?_⟩
+  have hk : keptPairs [some (3 : ℚ), none, some 5] [[3, 1], [7, 7], [2, 2]] = [(3, [3, 1]), (5, [2, 2])] := by
+    simp [keptPairs]
+  rw [h2, hk]
+  norm_num [energy, abs_of_nonneg, abs_of_neg]
+
+/-- the hypotheses of `member_order_irrelevant_any_carrier` hold for every permutation of the members
+whenever `qsort` is a sorted permutation -/
+example {sort : List α → List α} (hsort : SortOK sort) {ens ens' : List (List α)}
+    (hp : List.Forall₂ List.Perm ens' ens) :
+    ens'.map sort = ens.map sort ∧ ens'.map List.length = ens.map List.length := by
+  refine ⟨map_sort_of_forall₂_perm hsort hp, ?_⟩
+  induction hp with
+  | nil => rfl
+  | cons hab _ ih => simp [hab.length_eq, ih]
+
+/-- rejected-input hypotheses: an all-NaN observation vector keeps nothing -/
+example : ∀ p ∈ ([none, none] : List (Option ℚ)).zip [[some 1], [some 2]], keep p = false := by
+  intro p hp; simp at hp; rcases hp with rfl | rfl <;> rfl
 
 end HydroVerif.C03
